@@ -1875,33 +1875,32 @@ struct Value {
                 const Value *end = array_.End();
 
                 while (item_ != end) {
-                    if ((item_ != nullptr) && item_->isObject()) {
+                    if ((item_ != nullptr) && item_->isObject() &&
+                        item_->object_.GetKeyIndex(grouped_key_index, key, length)) {
                         SizeT count = 0;
 
                         const VItem *obj_item = item_->object_.First();
                         const VItem *obj_end  = item_->object_.End();
 
                         while (obj_item != obj_end) {
-                            if ((obj_item != nullptr) && !(obj_item->Value.isUndefined())) {
-                                if (count != grouped_key_index) {
+                            if (count != grouped_key_index) {
+                                // Removed members are skipped.
+                                if (!(obj_item->Value.isUndefined())) {
                                     new_sub_obj[obj_item->Key] = obj_item->Value;
-                                } else if (!(obj_item->Value.SetCharAndLength(str, str_len))) {
-                                    stream.Clear();
-
-                                    if (obj_item->Value.CopyValueTo(stream)) {
-                                        str     = stream.First();
-                                        str_len = stream.Length();
-                                    } else {
-                                        return false;
-                                    }
                                 }
+                            } else if (!(obj_item->Value.SetCharAndLength(str, str_len))) {
+                                stream.Clear();
 
-                                ++count;
-                                ++obj_item;
-                                continue;
+                                if (obj_item->Value.CopyValueTo(stream)) {
+                                    str     = stream.First();
+                                    str_len = stream.Length();
+                                } else {
+                                    return false;
+                                }
                             }
 
-                            return false;
+                            ++count;
+                            ++obj_item;
                         }
 
                         groupedValue.object_.Get(str, str_len) += Memory::Move(new_sub_obj);
